@@ -218,9 +218,9 @@ DataVariants(id) ==
        \cup {id \o <<b>> : b \in Bits}
        \cup {Mutate(id, j) : j \in 1..Len(id)}
 AltZZ(z) == IF z \in {ANY, 8, 16} THEN 254 ELSE 8
-(* source addresses: masters with even and odd master numbers below and above 16 (10 = #2, 31 = #8, 03 = #11, *)
-(* 17 = #17, FF = #25); the source bits of the key are shared with the active read/write markers             *)
-QQAll == {16, 49, 3, 23, 255}
+(* source addresses: masters with even and odd master numbers below and above 16 (00 = #1, 10 = #2, 31 = #8,   *)
+(* 03 = #11, FF = #25: first and last master number included); the source bits of the key are shared with the active read/write markers             *)
+QQAll == {0, 16, 49, 3, 255}
 TelsOfDef(d, qqs) ==
   LET zz0 == IF d.dst = ANY THEN 8 ELSE d.dst
       datas == UNION {DataVariants(d.ids[k]) : k \in 1..Len(d.ids)}
